@@ -136,6 +136,16 @@ func genC24(rng *rand.Rand, tier string, w *bufio.Writer) {
 		for _, a := range c24Algs {
 			fmt.Fprintf(w, "dec %s %s  %s\n", a, hex.EncodeToString(p), c24Lib(a, nil))
 		}
+		// lz4: the size field of a one-byte stored block enlarged to swallow end mark + checksum
+		{
+			q := []byte("a")
+			cq, _ := compressor.New(compressor.LZ4).Compress(q)
+			if len(cq) == 20 && cq[7] == 0x01 && cq[10] == 0x80 {
+				dq := append([]byte(nil), cq...)
+				dq[7] = 0x09
+				fmt.Fprintf(w, "dec lz4 %s %s %s\n", hex.EncodeToString(q), hex.EncodeToString(dq), c24Lib("lz4", dq))
+			}
+		}
 		p = []byte("abcdefghijklmnopqrstuvwxyz0123456789")
 		c, _ = compressor.New(compressor.Snappy).Compress(p)
 		d = append([]byte(nil), c...)
